@@ -3,14 +3,14 @@
     Definitions only (no proofs).  One label = one atomic step of the Go code: a
     mutex-protected region or a single channel / WaitGroup operation.
 
-      syncer/syncer.go
-        allowConnect  569-609   one region under s.mu (tg.Add, count peers, compare)
-        addPeer       403-417   one region under s.mu (insert into s.peers)
-        acquireInflight / releaseInflight 426-449  regions under s.inflightMu
-        runPeer       451-509   tg.Add | acceptRPC | select{inflight<- , <-tg.Done}
+      syncer/syncer.go (line numbers of the repaired file, fix "re-check the inbound peer limit")
+        allowConnect  582-622   one region under s.mu (tg.Add, count peers, compare)
+        addPeer       388-416   one region under s.mu (compare again, insert into s.peers)
+        acquireInflight / releaseInflight 439-462  regions under s.inflightMu
+        runPeer       464-522   tg.Add | acceptRPC | select{inflight<- , <-tg.Done}
                                 | acquireInflight -> go handler / <-inflight; continue
                                 | return (done(), then the deferred delete(s.peers))
-        handler goroutine 482-507  tg.Add | handleRPC | done() | releaseInflight | <-inflight
+        handler goroutine 505-520  tg.Add | handleRPC | done() | releaseInflight | <-inflight
       threadgroup/threadgroup.go
         Add 29-39 (fails once closed) | done = wg.Done | Stop 78-88 = close(closed) ; wg.Wait()
 
@@ -23,7 +23,7 @@ Import ListNotations.
 (** ** Configuration (syncer options) *)
 Record config := mk_config {
   max_rpc    : nat;   (* WithMaxInflightRPCs: capacity of the per-connection channel *)
-  max_subnet : Z;     (* WithMaxInflightRPCsPerSubnet: <= 0 disables (acquireInflight:427) *)
+  max_subnet : Z;     (* WithMaxInflightRPCsPerSubnet: <= 0 disables (acquireInflight:440) *)
   max_in     : Z;     (* WithMaxInboundPeers *)
   max_out    : Z;     (* WithMaxOutboundPeers *)
   recheck    : bool   (* addPeer compares the inbound count again under s.mu
@@ -184,7 +184,7 @@ Definition quiescent (cfg : config) (s : state) : bool :=
 Definition step (cfg : config) (s : state) (l : label) : option state :=
   match l with
   | LAllow c sub inb ok =>
-      (* allowConnect:573 tg.Add fails once stopped; :599-603 the comparison.  peerLoop
+      (* allowConnect:586 tg.Add fails once stopped; :612-616 the comparison.  peerLoop
          (the only caller for outbound) is sequential: one outbound attempt at a time *)
       match ffind (isc c) (conns s) with
       | Some _ => None
@@ -196,6 +196,7 @@ Definition step (cfg : config) (s : state) (l : label) : option state :=
         else None
       end
   | LAdd c ok =>
+      (* addPeer:397-413: with [recheck] the inbound count is compared again before the insertion *)
       match ffind (isc c) (conns s) with
       | Some x =>
         if is_pend (c_st x) then
@@ -224,7 +225,7 @@ Definition step (cfg : config) (s : state) (l : label) : option state :=
         else None
       end
   | LLoopStart c ok =>
-      (* runPeer:461-465 *)
+      (* runPeer:474-478 *)
       match ffind (isc c) (conns s) with
       | Some x =>
         match c_st x with
@@ -245,7 +246,7 @@ Definition step (cfg : config) (s : state) (l : label) : option state :=
       | _, _ => None
       end
   | LAccept c r =>
-      (* runPeer:470-477: p.Err() == nil, acceptRPC succeeded; the loop is sequential *)
+      (* runPeer:483-490: p.Err() == nil, acceptRPC succeeded; the loop is sequential *)
       match ffind (isc c) (conns s), ffind (isr r) (rpcs s) with
       | Some x, Some y =>
         if is_run (c_st x) && negb (c_err x) && N.eqb (r_conn y) c && is_pending (r_st y)
@@ -254,7 +255,7 @@ Definition step (cfg : config) (s : state) (l : label) : option state :=
       | _, _ => None
       end
   | LAcquire c r =>
-      (* runPeer:478-479: the send succeeds iff the channel is not full *)
+      (* runPeer:491-492: the send succeeds iff the channel is not full *)
       match ffind (isc c) (conns s), ffind (isr r) (rpcs s) with
       | Some x, Some y =>
         if is_run (c_st x) && N.eqb (r_conn y) c && is_waiting (r_st y) && (c_slots x <? max_rpc cfg)
@@ -264,7 +265,7 @@ Definition step (cfg : config) (s : state) (l : label) : option state :=
       | _, _ => None
       end
   | LSubOk c r =>
-      (* acquireInflight:426-438 returns true; runPeer:492 go func *)
+      (* acquireInflight:439-450 returns true; runPeer:505 go func *)
       match ffind (isc c) (conns s), ffind (isr r) (rpcs s) with
       | Some x, Some y =>
         if is_run (c_st x) && N.eqb (r_conn y) c && is_held (r_st y) then
@@ -278,7 +279,7 @@ Definition step (cfg : config) (s : state) (l : label) : option state :=
       | _, _ => None
       end
   | LSubDrop c r =>
-      (* acquireInflight returns false; runPeer:486-490 *)
+      (* acquireInflight returns false; runPeer:498-503 *)
       match ffind (isc c) (conns s), ffind (isr r) (rpcs s) with
       | Some x, Some y =>
         if is_run (c_st x) && N.eqb (r_conn y) c && is_held (r_st y) && subnet_on cfg
@@ -300,7 +301,7 @@ Definition step (cfg : config) (s : state) (l : label) : option state :=
       | None => None
       end
   | LLoopExit c =>
-      (* runPeer:471 / 475-476 (error, loop idle) or :480-481 (select took <-tg.Done()) *)
+      (* runPeer:484 / 488-489 (error, loop idle) or :493-494 (select took <-tg.Done()) *)
       match ffind (isc c) (conns s) with
       | Some x =>
         if is_run (c_st x) && (count (on_conn c is_held) (rpcs s) =? 0)
@@ -322,7 +323,7 @@ Definition step (cfg : config) (s : state) (l : label) : option state :=
       | None => None
       end
   | LHStart r ok =>
-      (* handler:496-499 *)
+      (* handler:509-512 *)
       match ffind (isr r) (rpcs s) with
       | Some y =>
         match r_st y with
@@ -345,7 +346,7 @@ Definition step (cfg : config) (s : state) (l : label) : option state :=
       | None => None
       end
   | LRelSub r =>
-      (* releaseInflight:441-449: decrements without looking *)
+      (* releaseInflight:453-462: decrements without looking *)
       match ffind (isr r) (rpcs s) with
       | Some y =>
         match r_st y with
